@@ -37,20 +37,25 @@ def body_for(req, c):
     return b['allocations'].get(c)
 
 
-def creator_of(race, start, c, row_id):
-    """Name of the request whose transaction made consumer c's record with
-    this row id appear (None if it was there at the start)."""
+def creator_of(race, start, c, row_id, upto=None):
+    """Name of the request whose transaction made the incarnation of consumer
+    c's record present in dump `upto` appear (None if it was there at the
+    start).  Row ids are reused by SQLite after a delete, so the LAST
+    appearance before `upto` counts, not the first."""
     prev = start
+    creator = None
     for (name, kind, d) in race.points:
+        if prev is upto:
+            break
         if d is None:
             continue
         had = prev.consumers.get(c)
         has = d.consumers.get(c)
         if has is not None and has['id'] == row_id and (
                 had is None or had['id'] != row_id):
-            return name
+            creator = name
         prev = d
-    return None
+    return creator
 
 
 def oracle(ctx, svc, snap, start, reqs, race, schedule):
@@ -73,7 +78,7 @@ def oracle(ctx, svc, snap, start, reqs, race, schedule):
             # created a moment ago (generation 0, nothing allocated)
             ok = row is None or (
                 row['generation'] == 0 and
-                creator_of(race, start, c, row['id']) == n and
+                creator_of(race, start, c, row['id'], before) == n and
                 not any(k[0] == c for k in before.allocations))
         else:
             ok = row is not None and row['generation'] == g
@@ -128,7 +133,7 @@ def oracle(ctx, svc, snap, start, reqs, race, schedule):
 
 def run_worker(ctx):
     engc.run_cases(ctx, cgen.consumer_race_case, oracle,
-                   examples=ctx.pick(6, 80))
+                   examples=ctx.pick(6, 50))
 
 
 def replay(ctx, data):
